@@ -232,7 +232,9 @@ def reduplicate(exprs):
         else:
             if visited:
                 children = args.pop()
-                if any(map(lambda x: x[0].id != x[1].id, zip(expr, children))):
+                if expr.id in ids or any(
+                        map(lambda x: x[0].id != x[1].id, zip(expr,
+                                                              children))):
                     node = Node(*children)
                     args[-1].append(node)
                     ids.add(node.id)
